@@ -84,7 +84,7 @@ Theorem C03_rendered_text_matches : forall ct e full stripped tagged frags text 
   forallb (frag_renderable e) frags = true ->
   vrle2re false full e stripped tagged frags = Ok text ->
   matches_frags ct false e frags s ->
-  re_model_match ct text s = Some true.
+  re_model_fullmatch ct text s = Some true.
 Proof. exact rendered_text_matches. Qed.
 Print Assumptions C03_rendered_text_matches.
 
@@ -99,7 +99,7 @@ Theorem C03_batch_text_covers : forall ct o e stripped gt ex merged rex,
   table_ok ct -> 1 <= z_max_strings_in_group o ->
   batch_oracle_okb ct o e stripped gt ex = true ->
   batch_renderable ct o e stripped gt ex = true ->
-  forall s, In s (ex_strings ex) -> exists text, In text rex /\ re_model_match ct text s = Some true.
+  forall s, In s (ex_strings ex) -> exists text, In text rex /\ re_model_fullmatch ct text s = Some true.
 Proof. exact batch_text_covers. Qed.
 Print Assumptions C03_batch_text_covers.
 
